@@ -21,6 +21,9 @@ URLS = [
     ('wss://example.org:444/', 'example.org', 444, '/', True),
     ('ws://10.0.0.1:9/x', '10.0.0.1', 9, '/x', False),
     ('ws://example.com/?only=query', 'example.com', 80, '/?only=query', False),
+    ('ws://example.com?token=abc', 'example.com', 80, '/?token=abc', False),
+    ('wss://example.com:9443?x=1&y=2', 'example.com', 9443, '/?x=1&y=2', True),
+    ('ws://EXAMPLE.com:80/Path/UP?Q=1', 'example.com', 80, '/Path/UP?Q=1', False),
 ]
 
 
